@@ -570,6 +570,21 @@ func genReconn(r *Rng, prop string) *Scenario {
 	if prop == "C13" && !cfg.EarlyReply && r.chance(0.25) {
 		cfg.Yields = map[string]int64{"app.transportClose": r.pickI(10, 100, 500)}
 	}
+	if prop == "C13" && !cfg.EarlyReply && r.chance(0.12) {
+		// aimed: an application Ping abandoned by its context, its late PINGRESP
+		// arriving while the next keep-alive ping is outstanding, and the peer
+		// going silent right after that: the keep-alive ping is the first one
+		// left unanswered and its timeout must close the connection
+		rt := cfg.LatC2BUs + cfg.LatB2CUs
+		cfg.Frag, cfg.JitterUs, cfg.Yields = nil, nil, nil
+		active := connectAt + cfg.DialLatUs + rt
+		tB := active + r.between(1, 4)*cfg.PingIntervalUs
+		tA := tB - rt/2
+		sc.Ops = sc.Ops[:1]
+		sc.Ops = append(sc.Ops, Op{AtUs: tA, Actor: 7, Kind: "ping", CtxTimeoutUs: rt / 4})
+		sc.Faults = []Fault{{Kind: "silentFrom", Conn: 1, AtUs: tA + rt + rt/8}}
+		lastOp = tA
+	}
 
 	// horizon: after the last scenario event plus room for the faults to play out
 	h := lastOp + 6*maxBackoff + 20000
